@@ -718,8 +718,8 @@ def c06(prop, tier):
                 seen.add(k)
                 kind = {1: "PikeVM internal state", 2: "BacktrackerState", 3: "DFA cache"}.get(d["kind"], str(d["kind"]))
                 extra.append({"prop": prop, "api": "scratch-shared", "mode": "first", "pattern": d["pat"], "hay": "", "scope": "pool",
-                              "args": kind, "want": "every mutable scratch object is used by at most one call in progress (Trace_Pool!Scr)",
-                              "got": f"{kind} used by two calls in progress (trace line {d['line']})"})
+                              "args": kind, "want": "no goroutine enters a mutable scratch object while another stands in its entry (Trace_Pool!Scr)",
+                              "got": f"{kind} entered by a second goroutine while another stands in its entry (trace line {d['line']})"})
         if tr_r.error or tr_r.violation:
             machinery.append(f"Trace_Pool: {(tr_r.error or tr_r.violation)[:500]}")
         elif not ok:
